@@ -29,10 +29,15 @@ func init() {
 		Rule: "stream `calls`: 6–14 independent calls per case of Diff/Intersect/Unique/UniqueByKey/Filter (dst ∈ nil, fresh with any len/cap, s1[:k], s2[:k]), their InPlace variants, Equal/Index/IndexFunc/Contains, SubSlice/Copy/Remove with indices −2..len+2, Chunk/ChunkProcess (sizes −1..len+2, failing callback), Values; ints from 0..4, lengths 0..8, nil vs empty; " +
 			"stream `flex`: FlexSlice op sequences (Append/Prepend bursts, Get/Remove/Pop/Shift/SubSlice) from initial capacities 0..40 crossing the growth and cap/4 shrink thresholds, backing array compared cell by cell; " +
 			"stream `arena` (≈ 17 % of the cases): every slice argument (dst, s, s1, s2) is a window off:len:cap of ONE persistent arena in every relative layout (s2 a partial window of / equal to / straddling / adjacent to / disjoint from s1; dst nil, a prefix of s1 or s2, overlapping s2, running into s1, with small or spare capacity), sources with spare capacity holding other values; all ten set functions, Copy (often twice, then the caller appends to the source), SubSlice, Remove; after every call the whole arena is compared, the result is located by its data pointer (a window of the arena incl. spare capacity, or memory of its own) and a results ledger re-compares every earlier fresh result with its deep copy; " +
+			"35 % of the arena cases use element type float64 AND struct{F float64; Tag int} (header `arenaF`: NaN, -0, +0 among the cells; both instantiations must answer alike) incl. Equal / Index / Contains with the SAME window passed twice; " +
 			"stream `large` (≈ 1.3 % of the cases): 2–4 calls on slices of up to 2000 elements with 16…1500 distinct values from ranges up to 5000 and a controlled duplicate structure (every new value may be repeated at once, the last new values are repeated at the end) for Diff/Intersect/Unique/UniqueByKey (key counts around the distinct count)/Filter, their InPlace variants, all dst layouts, Chunk/ChunkProcess sizes around the length, Copy/SubSlice/Remove/Equal/Index/Values at the far end; stream `large-flex`: FlexSlice with capacities 200…5000 driven by bulk ops (appendn/prependn/popn/shiftn), Prepend batches of every size class relative to the capacity (fits in place, just too big, ≤1.25·cap, 1.25–2·cap, >2·cap), growth across runtime size classes, drains across cap/4 from large, refill; state compared by length, capacity and hashes of content and backing array; " +
 			"non-trivial = a calls case with at least one aliased-dst or in-place call on a slice with duplicates, or a flex case with at least one reallocation (growth or shrink); distinct by hash of the case",
 		Classify: classify,
 		Parallel: true,
+		Extras: []core.Extra{
+			{Name: "readonly-inputs", Run: extraReadOnly},
+			{Name: "parallel-objects", Run: extraParallel},
+		},
 		Assumptions: []string{
 			"Go int treated as unbounded (no length near 2^63)",
 			"runtime growslice capacity rule for 8-byte elements (Go 1.20+: double below 256, size-class rounding) is used by the executable model only; the FlexSlice theorems hold for every growth function",
@@ -83,6 +88,8 @@ func showSl(s []int) string {
 	}
 	return showInts(s)
 }
+
+func showIntsPlain(s []int) string { return showInts(s) }
 
 func showInts(s []int) string {
 	var sb strings.Builder
@@ -429,7 +436,7 @@ func parseInts(ts []string) ([]int, bool) {
 
 func impl(c core.Case) []string {
 	hdr := core.Toks(c.Lines[0])
-	if len(hdr) >= 3 && hdr[2] == "arena" {
+	if len(hdr) >= 3 && (hdr[2] == "arena" || hdr[2] == "arenaF") {
 		return implArena(c)
 	}
 	if len(hdr) >= 3 && hdr[2] == "calls" && len(hdr) == 3 {
@@ -1647,7 +1654,7 @@ func check(c core.Case, out []string) *core.Failure {
 	if hdr[2] == "flex" || hdr[2] == "flexL" {
 		return checkFlex(c, out)
 	}
-	if hdr[2] == "arena" {
+	if hdr[2] == "arena" || hdr[2] == "arenaF" {
 		return checkArena(c, out)
 	}
 	for i := 1; i < len(c.Lines); i++ {
@@ -1693,7 +1700,7 @@ func nonTrivial(c core.Case, out []string) bool {
 	if len(hdr) < 3 {
 		return false
 	}
-	if hdr[2] == "arena" { // at least one call whose windows overlap
+	if hdr[2] == "arena" || hdr[2] == "arenaF" { // at least one call whose windows overlap
 		for _, l := range classifyArena(c, out) {
 			if strings.Contains(l, "inside") || strings.Contains(l, "straddling") || strings.Contains(l, "equal") || strings.Contains(l, "spare capacity") {
 				return true
@@ -1736,7 +1743,7 @@ func classify(c core.Case, out []string) []string {
 	if len(hdr) < 3 {
 		return nil
 	}
-	if hdr[2] == "arena" {
+	if hdr[2] == "arena" || hdr[2] == "arenaF" {
 		return classifyArena(c, out)
 	}
 	if hdr[2] == "flex" || hdr[2] == "flexL" {
